@@ -7,6 +7,7 @@ import (
 	"github.com/orda-io/orda/client/pkg/iface"
 	"github.com/orda-io/orda/client/pkg/model"
 	"github.com/orda-io/orda/client/pkg/operations"
+	"sync"
 )
 
 // WiredDatatype implements the datatype features related to the synchronization with Orda server
@@ -15,6 +16,7 @@ type WiredDatatype struct {
 	wire        iface.Wire
 	checkPoint  *model.CheckPoint
 	localBuffer []*model.Operation
+	applyMutex  sync.Mutex // serializes ApplyPushPullPack
 }
 
 // NewWiredDatatype creates a new wiredDatatype
@@ -228,6 +230,11 @@ func (its *WiredDatatype) updateStateOfDatatype(
 // ApplyPushPullPack applies for PushPullPack
 func (its *WiredDatatype) ApplyPushPullPack(ppp *model.PushPullPack) {
 	defer its.L().Infof("end ApplyPushPull")
+	// Two syncs of one datatype can overlap (a notification-triggered sync does not take the manager's
+	// semaphore). What a response brings anew is decided by checkpoint arithmetic; between that decision
+	// and the checkpoint update the other response decided the same and both applied the same operations.
+	its.applyMutex.Lock()
+	defer its.applyMutex.Unlock()
 	var oldState, newState model.StateOfDatatype
 	var errs errors.OrdaError = &errors.MultipleOrdaErrors{}
 	var opList []interface{}
